@@ -415,6 +415,7 @@ partial def exec (x : XState) (args : List String) : XState × String :=
     let chunks := (flushSplit thr.toNat! ops).filter (fun c => !c.isEmpty)
     (x, "chunks=" ++ ",".intercalate (chunks.map fun c => toString c.length))
   | ["lrootval", _] => (x, "ok ver=1 val=x76")   -- a legacy store loads whatever the bytes of its root hash are
+  | ["wlog"] => (x, "?")   -- answered only when the harness supplied the write log (then the line reads `flushcheck …`)
   | "vex" :: _ => (x, icsVerify args)
   | "vnon" :: _ => (x, icsVerify args)
   | ["adopt"] =>
